@@ -444,8 +444,17 @@ pub fn new_ctl(domain: FaultDomain) -> Arc<Mutex<Ctl>> {
 use serde::{Deserialize, Serialize};
 use std::collections::BTreeMap;
 
-pub const WNAMES: &[&str] = &["/s0", "/s1", "/s2", "/d0", "/d0/s3", "/d0/s4", "/d1", "/d0/d2"];
-const W_IS_STORAGE: &[bool] = &[false, false, false, true, false, false, true, true];
+/// The first eight names are the namespace of the generated workloads (their name indices are
+/// drawn from 0..8); the others are filler streams of the directory-growth scenario.
+pub const WNAMES: &[&str] = &[
+    "/s0", "/s1", "/s2", "/d0", "/d0/s3", "/d0/s4", "/d1", "/d0/d2", "/f00", "/f01", "/f02", "/f03", "/f04", "/f05", "/f06", "/f07", "/f08", "/f09", "/f10", "/f11", "/f12", "/f13", "/f14", "/f15", "/f16", "/f17", "/f18", "/f19", "/f20",
+    "/f21", "/f22", "/f23", "/f24", "/f25", "/f26", "/f27", "/f28", "/f29", "/f30", "/f31", "/f32", "/f33", "/f34", "/f35", "/f36", "/f37", "/f38", "/f39", "/f40", "/f41", "/f42", "/f43", "/f44", "/f45", "/f46", "/f47", "/f48", "/f49",
+    "/f50", "/f51", "/f52", "/f53", "/f54", "/f55", "/f56", "/f57", "/f58", "/f59", "/f60", "/f61", "/f62", "/f63", "/f64", "/f65", "/f66", "/f67", "/f68", "/f69",
+];
+/// whether WNAMES[n] names a storage (the fillers from index 8 on are streams)
+fn w_is_storage(n: usize) -> bool {
+    matches!(n, 3 | 6 | 7)
+}
 
 #[derive(Clone, Debug, PartialEq, Eq, Serialize, Deserialize)]
 pub enum WOp {
@@ -573,7 +582,7 @@ pub fn run_write_script(version: u8, max_buf: Option<u32>, script: &[WOp], ctl: 
             let res: Option<std::io::Result<()>> = match op {
                 WOp::CreateStorage { name } => {
                     let n = *name as usize % WNAMES.len();
-                    if !W_IS_STORAGE[n] {
+                    if !w_is_storage(n) {
                         None
                     } else {
                         Some(guard("create_storage", || c.create_storage(WNAMES[n]))?)
@@ -581,7 +590,7 @@ pub fn run_write_script(version: u8, max_buf: Option<u32>, script: &[WOp], ctl: 
                 }
                 WOp::RemoveStorage { name } => {
                     let n = *name as usize % WNAMES.len();
-                    if !W_IS_STORAGE[n] {
+                    if !w_is_storage(n) {
                         None
                     } else {
                         Some(guard("remove_storage", || c.remove_storage(WNAMES[n]))?)
@@ -590,7 +599,7 @@ pub fn run_write_script(version: u8, max_buf: Option<u32>, script: &[WOp], ctl: 
                 WOp::CreateStream { slot, name } | WOp::OpenStream { slot, name } => {
                     let n = *name as usize % WNAMES.len();
                     let s = *slot as usize % handles.len();
-                    if W_IS_STORAGE[n] || open_on(&handles, n) {
+                    if w_is_storage(n) || open_on(&handles, n) {
                         None
                     } else {
                         // close the slot's previous handle first (a Drop: faults there are exempt)
@@ -619,7 +628,7 @@ pub fn run_write_script(version: u8, max_buf: Option<u32>, script: &[WOp], ctl: 
                 }
                 WOp::RemoveStream { name } => {
                     let n = *name as usize % WNAMES.len();
-                    if W_IS_STORAGE[n] || open_on(&handles, n) {
+                    if w_is_storage(n) || open_on(&handles, n) {
                         None
                     } else {
                         Some(guard("remove_stream", || c.remove_stream(WNAMES[n]))?)
@@ -647,7 +656,7 @@ pub fn run_write_script(version: u8, max_buf: Option<u32>, script: &[WOp], ctl: 
                 }
                 WOp::RemoveAll { name } => {
                     let n = *name as usize % WNAMES.len();
-                    if !W_IS_STORAGE[n] || (0..WNAMES.len()).any(|k| WNAMES[k].starts_with(WNAMES[n]) && open_on(&handles, k)) {
+                    if !w_is_storage(n) || (0..WNAMES.len()).any(|k| WNAMES[k].starts_with(WNAMES[n]) && open_on(&handles, k)) {
                         None
                     } else {
                         Some(guard("remove_storage_all", || c.remove_storage_all(WNAMES[n]))?)
